@@ -29,7 +29,13 @@ func main() {
 	logger := zap.NewNop()
 
 	srv := server.NewServer()
-	handler := protocol.ServerHandler(newServerDispatcher(srv), nil)
+	dispatch := protocol.ServerHandler(newServerDispatcher(srv), nil)
+	handler := func(ctx context.Context, reply jsonrpc2.Replier, req jsonrpc2.Request) error {
+		if req.Method() == protocol.MethodTextDocumentDidChange {
+			ctx = server.WithRangelessChanges(ctx, req.Params())
+		}
+		return dispatch(ctx, reply, req)
+	}
 
 	stream := jsonrpc2.NewStream(stdrwc{})
 	conn := jsonrpc2.NewConn(stream)
